@@ -47,6 +47,8 @@ func main() {
 		runC01(*out, *seed, *tier)
 	case "C03":
 		runC03(*out, *seed, *tier)
+	case "C11":
+		runC11(*out, *seed, *tier)
 	case "C04":
 		runC04(*out, *seed, *tier)
 	default:
